@@ -849,3 +849,91 @@ func c20scannerErrors(c *Ctx) {
 	sort.Strings(rbad)
 	c.R.Check(len(rbad) == 0 && rclasses == 2, rule, goctlScan+".readData#error-classes", "readData returns an error only as os.ReadFile's error or for a source that is none of []byte, *bytes.Buffer, string (format.Source passes []byte)", posOf(c, rd), fmt.Sprintf("%d confirmed classes; %s", rclasses, strings.Join(rbad, "; ")), rbad, rclasses)
 }
+
+// c20commentReject (R16, round 6): "got a comment where T… was expected" is only ever said where nothing but T… is
+// accepted. For every call notExpectPeekTokenGotComment(c, E…) in the parser: on the paths where it does not reject,
+// every acceptance test on the same (not yet consumed) peek token — peekTokenIs(S…) found true, before the next call
+// that advances — accepts only members of E. A comment check placed in front of a test that would have accepted
+// another token rejects valid sources (a route path ending in '/' followed by a comment: `get / // root`), because the
+// comment is judged against an expectation the grammar does not have at that point.
+func c20commentReject(c *Ctx) {
+	rule := "C20.R16"
+	sites := 0
+	for _, f := range c.P.AllFuncs(goctlParser) {
+		has := false
+		for _, b := range f.Blocks {
+			for _, ins := range b.Instrs {
+				if call, ok := ins.(*ssa.Call); ok && strings.HasSuffix(calleeName(call.Common()), ".notExpectPeekTokenGotComment") {
+					has = true
+					sites++
+				}
+			}
+		}
+		if !has {
+			continue
+		}
+		name := func(e *px.Event) string {
+			if e.Kind != px.EvCall || e.Call == nil || e.Call.Static == nil {
+				return ""
+			}
+			return e.Call.Static.Name()
+		}
+		set := func(p *px.Path, s *px.Sym) (map[string]bool, bool) {
+			out := map[string]bool{}
+			els := p.SliceElems(s)
+			if els == nil {
+				return nil, false
+			}
+			for _, el := range els {
+				a := p.Abs(el.Strip(true))
+				if a.K != px.ConstV {
+					return nil, false
+				}
+				out[a.C.ExactString()] = true
+			}
+			return out, true
+		}
+		ps := c.paths(rule, f, px.Config{MaxVisits: 2, MaxPaths: 4000})
+		c.forall(rule, funcDisplay(f)+"#comment-expectation", "after a comment check with expectation E passed, the peek token is accepted (peekTokenIs true) only as a member of E until the parser advances", f, ps, func(p *px.Path) (bool, string) {
+			var exp map[string]bool
+			for i := range p.Events {
+				e := &p.Events[i]
+				switch n := name(e); n {
+				case "notExpectPeekTokenGotComment":
+					if p.Abs(e.Res).K == px.True {
+						return true, "" // rejected: the path ends
+					}
+					s, ok := set(p, e.Call.Args[len(e.Call.Args)-1])
+					if !ok {
+						return false, "the expectation of the comment check at " + c.P.Pos(e.Pos) + " is not a list of constants"
+					}
+					exp = s
+				case "nextToken", "advanceIfPeekTokenIs", "parsePathItem":
+					exp = nil
+				case "peekTokenIs":
+					if exp == nil || p.Abs(e.Res).K != px.True {
+						continue
+					}
+					s, ok := set(p, e.Call.Args[len(e.Call.Args)-1])
+					if !ok {
+						return false, "the accepted set at " + c.P.Pos(e.Pos) + " is not a list of constants"
+					}
+					for k := range s {
+						if !exp[k] {
+							return false, fmt.Sprintf("the peek token is accepted at %s as a token the preceding comment check did not expect: a comment in front of it is rejected although the construct is complete (e.g. a path ending in '/' followed by a comment)", c.P.Pos(e.Pos))
+						}
+					}
+				default:
+					if n != "" && strings.HasPrefix(n, "parse") {
+						exp = nil
+					}
+				}
+			}
+			return true, ""
+		})
+	}
+	c.R.Min(rule, 1, "parsePathExpr")
+	if sites < 1 {
+		c.R.Undecided(rule, goctlParser+"#comment-checks", "the comment checks of the parser are recognised", fmt.Sprintf("%d found", sites))
+	}
+}
